@@ -285,6 +285,14 @@ impl<'a> Fv<'a> {
     }
 }
 
+/// Host names of every extern the program can call.
+pub fn extern_calls(p: &SpsLowProgram) -> Vec<String> {
+    let arena = p.arena();
+    let mut fv = Fv { arena: &arena.inner, labels: vec![], problems: vec![], externs: vec![] };
+    fv.compu(p.root());
+    fv.externs
+}
+
 pub fn validate_sps_low(p: &SpsLowProgram) -> Vec<String> {
     let arena = p.arena();
     let mut fv = Fv { arena: &arena.inner, labels: vec![], problems: vec![], externs: vec![] };
@@ -387,14 +395,36 @@ impl Check for Lowered {
                     }
                 };
                 r = r.count("lowered", 1);
+                // The one answer of the environment that is not an input of the case is the host's random
+                // source (`random_int`, rand's thread-local generator). The harness owns it: both executions
+                // start from the same generator state (seed.rs), so they are given the same numbers.
+                let rng = crate::common::seed();
+                let mut owned = crate::seed::own_thread_rng(rng);
                 let run = subject.run(prog.stdin(), &[], SUBJECT_FUEL);
+                // did this execution consult the random source? (observed on the generator when it is
+                // owned; otherwise every program that can reach the extern is assumed to)
+                let draws = if owned { crate::seed::thread_rng_used(rng) } else { extern_calls(&sps_low).contains(&BuiltinValueRole::RandomInt.host_name()) };
+                if draws && owned {
+                    // proof of ownership: the same execution replayed from the same generator state must be
+                    // observed identically before any disagreement with the other side is believed
+                    crate::seed::own_thread_rng(rng);
+                    let again = subject.run(prog.stdin(), &[], SUBJECT_FUEL);
+                    owned = format!("{:?}", again.end) == format!("{:?}", run.end) && again.output == run.output;
+                }
+                crate::seed::own_thread_rng(rng);
                 let m = e2::Machine::new(&sps_low, 400_000).run(prog.stdin(), &[]);
                 r = r.count("machine_steps", m.steps);
+                if draws {
+                    r = r.count(if owned { "draws_random_owned" } else { "draws_random_not_owned" }, 1);
+                }
                 let agree = match (&run.end, &m.end) {
                     | (_, e2::MEnd::Unsupported(_)) => {
                         r = r.count("machine_unsupported", 1);
                         true
                     }
+                    // the program consults a random source the harness could not pin (interposer not
+                    // loaded): the two runs answer to different environments and are not comparable
+                    | _ if draws && !owned => true,
                     | (RunEnd::OutOfFuel, _) | (_, e2::MEnd::OutOfFuel) => {
                         let n = run.output.len().min(m.output.len());
                         // one side ended and the other is still running after more than 200 times as many
